@@ -5,6 +5,9 @@
      PROJ D d N <P D*d> <m D> <X N*D>    -> OK <N*d>
      MPI  D d <P D*d> <m D> <x D>        -> OK <d>
      TAIL D d N <P D*d> <X N*D>          -> OK <m D> <Y N*d>        (mean, then embedding)
+     MEANI D N M <ids N> <X M*D>         -> OK <D>                   (iterator range = the listed sample ids)
+     PROJI D d N M <ids N> <P D*d> <m D> <X M*D>  -> OK <N*d>
+     TAILI D d N M <ids N> <P D*d> <X M*D>        -> OK <m D> <Y N*d>
      SOUT N D d tol <X N*D> <Y N*d> <P D*d> <m D>   -> T | F | ILL  (output_consistent_tol_b)
      SPRJ D d tol <P D*d> <m D> <x D> <y d>         -> T | F | ILL  (is_projection_tol_b)
      SMEA N D tol <X N*D> <m D>                     -> T | F | ILL  (training_mean_tol_b)
@@ -109,6 +112,27 @@ let () =
               let dd = int_ () in let d = int_ () in let n = int_ () in
               let p = mat dd d in let x = mat n dd in
               (match c07_tail (nat_of_int dd) (nat_of_int d) p x with
+               | POk (y, PFMatrix (_, m)) -> "OK " ^ show_vec m ^ " " ^ show_mat y
+               | POk (_, PFNone) -> "ERR model returned no projection"
+               | PDim (s, g, w) -> Printf.sprintf "DIM %d %d %d" (int_of_nat s) (int_of_nat g) (int_of_nat w))
+            | "MEANI" ->
+              let d = int_ () in let n = int_ () in let mm = int_ () in
+              if d < 0 || n < 0 || mm < 0 || d > 4096 || n > 100000 || mm > 100000 then "ERR size" else
+              let ids = List.init n (fun _ -> nat_of_int (int_ ())) in
+              let x = mat mm d in
+              show_pres show_vec (c07_mean_range (nat_of_int d) x ids)
+            | "PROJI" ->
+              let dd = int_ () in let d = int_ () in let n = int_ () in let mm = int_ () in
+              if dd < 0 || d < 0 || n < 0 || mm < 0 || n > 100000 || mm > 100000 then "ERR size" else
+              let ids = List.init n (fun _ -> nat_of_int (int_ ())) in
+              let p = mat dd d in let m = vec dd in let x = mat mm dd in
+              show_pres show_mat (c07_project_range (nat_of_int dd) (nat_of_int d) p m x ids)
+            | "TAILI" ->
+              let dd = int_ () in let d = int_ () in let n = int_ () in let mm = int_ () in
+              if dd < 0 || d < 0 || n < 0 || mm < 0 || n > 100000 || mm > 100000 then "ERR size" else
+              let ids = List.init n (fun _ -> nat_of_int (int_ ())) in
+              let p = mat dd d in let x = mat mm dd in
+              (match c07_tail_range (nat_of_int dd) (nat_of_int d) p x ids with
                | POk (y, PFMatrix (_, m)) -> "OK " ^ show_vec m ^ " " ^ show_mat y
                | POk (_, PFNone) -> "ERR model returned no projection"
                | PDim (s, g, w) -> Printf.sprintf "DIM %d %d %d" (int_of_nat s) (int_of_nat g) (int_of_nat w))
